@@ -119,14 +119,29 @@ fn t_below(t: &mut Tape, n: usize) -> usize {
 }
 
 fn tls_many(t: &mut Tape, obs: &mut Obs) -> R {
-    let n = t.below(9);
-    let recs: Vec<MRecord> = (0..n).map(|_| gen_record(t)).collect();
+    // mostly 0..8 generated records; now and then very many small ones (any per-call limit on the number of records or on the
+    // buffer size shows only there), and now and then a long undecodable remainder
+    let (n, recs): (usize, Vec<MRecord>) = if t.chance(5) {
+        let n = t.pick(&[255usize, 256, 257, 4097, 16383, 16384, 16385, 20000, 70000]);
+        (n, (0..n).map(|k| match k % 4 {
+            0 => MRecord { ctype: 0x15, version: 0x0303, msgs: vec![MMsg::Alert(1, k as u8)], padding: vec![] },
+            1 => MRecord { ctype: 0x14, version: 0x0303, msgs: vec![MMsg::Ccs], padding: vec![] },
+            2 => MRecord { ctype: 0x17, version: 0x0301, msgs: vec![MMsg::AppData(vec![k as u8; k % 5])], padding: vec![] },
+            _ => MRecord { ctype: 0x16, version: 0x0303, msgs: vec![MMsg::Hs(MHs::ServerDone(vec![]))], padding: vec![] },
+        }).collect())
+    } else {
+        let n = t.below(9);
+        (n, (0..n).map(|_| gen_record(t)).collect())
+    };
     let mut buf = Vec::new();
     for r in &recs {
         buf.extend(r.to_bytes());
     }
     let probe = gen_record(t).to_bytes();
-    let (en, end) = ending(t, false, &probe);
+    let (en, mut end) = ending(t, false, &probe);
+    if en == "garbage" && t.chance(40) {
+        end.extend(std::iter::repeat(0xff).take(t.pick(&[65536usize, 100_000, 300_000])));
+    }
     buf.extend_from_slice(&end);
     if n >= 2 || !end.is_empty() {
         obs.nontrivial(fnv64(&buf));
@@ -180,14 +195,32 @@ fn tls_many(t: &mut Tape, obs: &mut Obs) -> R {
 }
 
 fn dtls_many(t: &mut Tape, obs: &mut Obs) -> R {
-    let n = t.below(6);
-    let recs: Vec<MDtlsRecord> = (0..n).map(|_| gen_dtls_record(t)).collect();
+    let (n, recs): (usize, Vec<MDtlsRecord>) = if t.chance(5) {
+        // buffers beyond 64 KiB: thousands of small records, or a few records of 16 KiB
+        if t.bool() {
+            let n = t.pick(&[255usize, 256, 4097, 6000, 16385, 20000]);
+            (n, (0..n).map(|k| match k % 3 {
+                0 => MDtlsRecord { ctype: 0x15, version: 0xfefd, epoch: (k >> 8) as u16, seq: k as u64, msgs: vec![MDtlsMsg::Alert(1, k as u8)] },
+                1 => MDtlsRecord { ctype: 0x14, version: 0xfeff, epoch: 1, seq: k as u64, msgs: vec![MDtlsMsg::Ccs] },
+                _ => MDtlsRecord { ctype: 0x15, version: 0xfefd, epoch: 0, seq: (k as u64) << 20, msgs: vec![MDtlsMsg::Alert(2, 40), MDtlsMsg::Alert(1, 0)] },
+            }).collect())
+        } else {
+            let n = 5 + t.below(4);
+            (n, (0..n).map(|k| MDtlsRecord { ctype: 0x15, version: 0xfefd, epoch: 0, seq: k as u64, msgs: (0..8000 + k).map(|j| MDtlsMsg::Alert(1, j as u8)).collect() }).collect())
+        }
+    } else {
+        let n = t.below(6);
+        (n, (0..n).map(|_| gen_dtls_record(t)).collect())
+    };
     let mut buf = Vec::new();
     for r in &recs {
         buf.extend(r.to_bytes());
     }
     let probe = gen_dtls_record(t).to_bytes();
-    let (en, end) = ending(t, true, &probe);
+    let (en, mut end) = ending(t, true, &probe);
+    if en == "garbage" && t.chance(40) {
+        end.extend(std::iter::repeat(0xff).take(t.pick(&[65536usize, 100_000, 300_000])));
+    }
     buf.extend_from_slice(&end);
     if n >= 2 || !end.is_empty() {
         obs.nontrivial(fnv64(&buf));
